@@ -49,6 +49,49 @@ Section Hist.
   Definition run_ops (s : mstate) (l : list op) : mstate := fold_left run_op l s.
 End Hist.
 
+(** * Extended histories: the threshold attribute may be assigned between operations, range end points may be
+      infinite, and the history may start from any mask (e.g. one loaded from a file with channels preset) *)
+Definition xle_l (lo : xq) (f : Q) : bool := match lo with XNegInf => true | XFin q => Qle_bool q f | XPosInf => false end.
+Definition xle_r (f : Q) (hi : xq) : bool := match hi with XNegInf => false | XFin q => Qle_bool f q | XPosInf => true end.
+Definition in_ranges_x (f : Q) (fm : list (xq * xq)) : bool :=
+  existsb (fun r => xle_l (fst r) f && xle_r f (snd r)) fm.
+(** the order of the extended rationals, for the statement of closedness *)
+Definition xq_le (a b : xq) : Prop :=
+  match a, b with
+  | XNegInf, _ => True | _, XPosInf => True
+  | XFin p, XFin q => (p <= q)%Q
+  | _, _ => False
+  end.
+Definition xfin (r : Q * Q) : xq * xq := (XFin (fst r), XFin (snd r)).
+
+Inductive opx :=
+| XMask (fm : list (xq * xq))          (* apply_mask *)
+| XMethod (m : method_t)               (* apply_method *)
+| XFuncn (f : bvec -> bvec)            (* apply_funcn *)
+| XThr (t : Q).                        (* rfimask.threshold = t *)
+
+(** the four masks and the threshold attribute *)
+Record hstate := HState { h_mask : mstate; h_thr : Q }.
+
+Section HistX.
+  Variables (dmm iqm : qvec -> Q -> option bvec) (nchans : Z) (freqs var skew kurt : qvec).
+  Definition run_opx (h : hstate) (o : opx) : hstate :=
+    match o with
+    | XMask fm => HState (apply_mask_x nchans freqs (h_mask h) fm) (h_thr h)
+    | XMethod m => match apply_method dmm iqm var skew kurt (h_thr h) (h_mask h) m with
+                   | Some s' => HState s' (h_thr h) | None => h end
+    | XFuncn f => HState (apply_funcn (h_mask h) f) (h_thr h)
+    | XThr t => HState (h_mask h) t
+    end.
+  Definition run_opsx (h : hstate) (l : list opx) : hstate := fold_left run_opx l h.
+End HistX.
+(** the threshold the object holds after a history: the last assignment, else the initial one *)
+Definition current_thr (t0 : Q) (l : list opx) : Q :=
+  fold_left (fun t o => match o with XThr t' => t' | _ => t end) l t0.
+(** an old history is an extended one *)
+Definition opx_of (o : op) : opx :=
+  match o with OpMask fm => XMask (map xfin fm) | OpMethod m => XMethod m | OpFuncn f => XFuncn f end.
+
 Definition subset (n : Z) (a b : bvec) : Prop := forall c, 0 <= c < n -> a c = true -> b c = true.
 
 (** * Executable instances for the correspondence *)
@@ -110,6 +153,20 @@ Definition zscore_doublemad_exec (n : Z) (a : qvec) : qvec :=
            let scale := if zero_scale scale maxdev then 1%Q else scale in
            ((a c - loc) / scale)%Q.
 
+(** the parts of the two estimators, named (for the statement of scale-freeness): location, largest deviation and the scale
+    BEFORE the zero-scale guard; [zscore_*_exec n a c = (a c - loc) / (if zero_scale scale maxdev then 1 else scale)] by computation *)
+Definition ex_loc (n : Z) (a : qvec) : Q := qmedian (vlist n a).
+Definition ex_maxdev (n : Z) (a : qvec) : Q := qmaxl (map (fun x => Qabs (x - ex_loc n a)) (vlist n a)).
+Definition iqr_scale (n : Z) (a : qvec) : Q := ((percentile (vlist n a) 75 - percentile (vlist n a) 25) / norm_iqr)%Q.
+Definition dm_left (n : Z) (a : qvec) : list Q :=
+  map (fun x => Qabs (x - ex_loc n a)) (filter (fun x => Qle_bool x (ex_loc n a)) (vlist n a)).
+Definition dm_right (n : Z) (a : qvec) : list Q :=
+  map (fun x => Qabs (x - ex_loc n a)) (filter (fun x => Qle_bool (ex_loc n a) x) (vlist n a)).
+Definition dm_scale (n : Z) (a : qvec) (c : Z) : Q :=
+  if negb (Qle_bool (ex_loc n a) (a c)) then side_scale (dm_left n a)
+  else if negb (Qle_bool (a c) (ex_loc n a)) then side_scale (dm_right n a)
+  else ((1 # 2) * (side_scale (dm_left n a) + side_scale (dm_right n a)))%Q.
+
 (** ** a small family of custom functions, mirrored in Python by the harness *)
 Definition custom_of (id n : Z) : bvec -> bvec :=
   fun x c =>
@@ -118,6 +175,7 @@ Definition custom_of (id n : Z) : bvec -> bvec :=
     else if id =? 2 then (if 0 <? c then x (c - 1) else false) || (if c <? n - 1 then x (c + 1) else false)  (* neighbours *)
     else if id =? 3 then (c mod 3 =? 0)                                   (* a fixed set *)
     else if id =? 4 then negb (x c)                                       (* ~m *)
+    else if id =? 6 then (c mod 4 =? 1)                                   (* integers (arange % 4 == 1), read as booleans *)
     else false.                                                           (* np.zeros *)
 
 (** ** the whole of clean_rfi, executable: statistic vectors and frequencies given as lists *)
@@ -144,3 +202,18 @@ Definition run_ops_exec (n : Z) (freqs var skew kurt : list Q) (thr : Q) (ops : 
   let states := fold_left (fun acc o => match acc with (s, out) => let s' := step s (op_of n o) in (s', out ++ [blist n (chan_mask s')]) end)
                           ops (RFIMask_init, []) in
   snd states ++ [blist n (user_mask (fst states)); blist n (stats_mask (fst states)); blist n (custom_mask (fst states))].
+
+(** an extended history, executable: start from a mask whose chan_mask is [init] (components empty), threshold [thr0] *)
+Inductive opcodex := CXMask (fm : list (xq * xq)) | CXMethod (m : method_t) | CXFuncn (id : Z) | CXThr (t : Q).
+Definition opx_ofc (n : Z) (o : opcodex) : opx :=
+  match o with CXMask fm => XMask fm | CXMethod m => XMethod m | CXFuncn id => XFuncn (custom_of id n) | CXThr t => XThr t end.
+Definition bof (l : list bool) : bvec := fun c => if c <? 0 then false else nth (Z.to_nat c) l false.
+Definition run_opsx_exec (n : Z) (freqs var skew kurt : list Q) (thr0 : Q) (init : list bool) (ops : list opcodex) : list (list bool) :=
+  let step := run_opx (mad_fn (zscore_doublemad_exec n)) (iqrm_fn (zscore_iqr_exec n) n 1 (fun _ => 0%Q)) n
+                      (qof freqs) (qof var) (qof skew) (qof kurt) in
+  let h0 := HState (MState (bof init) vfalse vfalse vfalse) thr0 in
+  (* chan_mask and stats_mask after every prefix of the history, then user and custom mask at the end *)
+  let states := fold_left (fun acc o => match acc with (h, out) => let h' := step h (opx_ofc n o) in
+                                          (h', out ++ [blist n (chan_mask (h_mask h')); blist n (stats_mask (h_mask h'))]) end)
+                          ops (h0, []) in
+  snd states ++ [blist n (user_mask (h_mask (fst states))); blist n (custom_mask (h_mask (fst states)))].
